@@ -19,8 +19,9 @@ Programs == <<
   <<"stmt", <<<<"post", Rf("x"), "++">>, <<"list", <<L("1"), <<"post", L("2"), "--">>>>>>, <<"map", <<<<Rf("f"), L("true")>>, <<L("3"), <<"list", <<>>>>>>>>>>>>>>,
   <<"bin", "+", <<"bin", "-", L("1"), L("2")>>, <<"un", "-", <<"un", "!", Rf("f")>>>>>>,
   <<"call", "g", <<<<"tern", Rf("x"), <<"none">>, <<"bin", "=", Rf("x"), L("1")>>>>>>>>,
+  <<"bin", "-", <<"un", "++", Rf("x")>>, <<"post", <<"un", "--", Rf("f")>>, "--">>>>,
   Rf("f"), L("7"), <<"none">> >>
-AllKeys == {<<"unary", "-">>, <<"unary", "!">>, <<"binary", "-">>, <<"binary", "+">>, <<"postfix", "++">>, <<"postfix", "--">>, <<"ternary", "">>,
+AllKeys == {<<"unary", "-">>, <<"unary", "!">>, <<"unary", "++">>, <<"unary", "--">>, <<"binary", "-">>, <<"binary", "+">>, <<"postfix", "++">>, <<"postfix", "--">>, <<"ternary", "">>,
             <<"function", "f">>, <<"function", "g">>, <<"reference", "f">>, <<"reference", "x">>, <<"list", "">>, <<"map", "">>, <<"chain", "">>}
 Ids == {"A", "B"}
 Next == /\ Len(history) < MaxSets
